@@ -179,6 +179,23 @@ def run_roundtrip(case):
     if np.any(~(back.ra >= 0.0)) or np.any(~(back.ra < 2 * PI)):
         k = int(np.nonzero(~((back.ra >= 0) & (back.ra < 2 * PI)))[0][0])
         v.append(viol("C14/from_3d/ra-out-of-range", f"from_3d(to_3d({pts[k].tolist()})) has RA {back.ra[k]!r}"))
+    # right ascension itself must come back wherever it is defined (x, y do not underflow), also next to a pole
+    dra = np.abs((back.ra - pts[:, 0] % (2 * PI) + PI) % (2 * PI) - PI)
+    defined = np.hypot(xyz[:, 0], xyz[:, 1]) > 1e-300
+    if (dra[defined] > 1e-7).any():
+        k = int(np.nonzero(defined)[0][np.argmax(dra[defined])])
+        v.append(viol("C14/roundtrip/ra-lost", f"from_3d(to_3d({pts[k].tolist()})) returns RA {back.ra[k]!r} "
+                      f"({dra[k]:.3e} rad off)"))
+    # single-precision input must be computed in double precision (same values, same results)
+    for dt in (np.float32, np.float16):
+        p32 = pts.astype(dt)
+        c32 = AngularCoordinates(p32)
+        c64 = AngularCoordinates(p32.astype(np.float64))
+        if not (np.array_equal(c32.to_3d(), c64.to_3d())
+                and np.array_equal(c32.distance(c64[::-1]).data, c64.distance(c64[::-1]).data)):
+            v.append(viol(f"C14/dtype/{np.dtype(dt).name}-input-computed-in-low-precision",
+                          f"coordinates given as {np.dtype(dt).name} array give other unit vectors / distances than "
+                          "the same values given as float64"))
     s = np.asarray(ref.sep(pts[:, 0], pts[:, 1], back.ra, back.dec)).astype(float)
     if s.max() > 1e-7:
         k = int(np.argmax(s))
